@@ -147,7 +147,9 @@ func c13Run(in string) string {
 		if err != nil {
 			return "err:fromle"
 		}
-		var back Uint128
+		// decode into a destination that already holds another value: UnmarshalJSON must
+		// overwrite both halves
+		back := Uint128{Upper: 0xdeadbeefcafe0001, Lower: 0x0123456789abcdef}
 		jr := "err"
 		if err := json.Unmarshal(js, &back); err == nil {
 			jr = c13pair(&back)
@@ -172,7 +174,7 @@ func c13Run(in string) string {
 		}
 		return c13pair(u)
 	case "unjson":
-		var u Uint128
+		u := Uint128{Upper: 0xdeadbeefcafe0001, Lower: 0x0123456789abcdef} // dirty destination
 		if err := u.UnmarshalJSON(vu.UnHex(f[1])); err != nil {
 			return "err"
 		}
